@@ -88,6 +88,9 @@ void VM<FO>::do_log(int tid, int opi, Op const& op)
   inv.s = expected;
   inv.s2 = std::to_string(site) + "," + std::to_string(fb);
 
+  size_t const cap_before = thread_logged[static_cast<size_t>(tid)] ? Fe::get_thread_local_queue_capacity() : 0;
+  bool const first_call = !thread_logged[static_cast<size_t>(tid)];
+  sim::AllocCounters const alloc_before = sim::alloc_counters();
   QUILL_TRY
   {
     switch (site)
@@ -162,7 +165,16 @@ void VM<FO>::do_log(int tid, int opi, Op const& op)
   {
     note_thread_logged(tid);
   }
-  record(EV_LOG_RETURN, id, result, static_cast<int64_t>(result == -1 ? 0 : Fe::get_thread_local_queue_capacity()));
+  sim::AllocCounters const alloc_after = sim::alloc_counters();
+  size_t const cap_after = result == -1 ? 0 : Fe::get_thread_local_queue_capacity();
+  record(EV_LOG_RETURN, id, result, static_cast<int64_t>(cap_after));
+  if (result == 1 && site <= 3 && fb == 0)
+  {
+    // C11: allocations on the calling thread around the call (flags as for the typed sites; bits 8.. = capacity before)
+    record(EV_ALLOC, id, static_cast<int64_t>(alloc_after.mallocs - alloc_before.mallocs),
+           static_cast<int64_t>(alloc_after.mmaps - alloc_before.mmaps),
+           (first_call ? 1 : 0) | ((cap_before != cap_after) ? 2 : 0) | 4 | (static_cast<int64_t>(cap_before) << 8));
+  }
 }
 
 template <class FO>
